@@ -159,6 +159,18 @@ def event(a, cid, mid, ids, flavour, full=True, dtype=None):
             t2s += [2 * v - 1, 2 * v, 2 * v + 1]
             ths += [float(np.nextafter(x, -np.inf)), x, float(np.nextafter(x, np.inf))]
         e["queries"] = queries(F, S, t2s, ths, full=full)
+        # history: the genuines / frauds setters re-bind the score arrays; every query still equals Scores
+        try:
+            if len(g) and len(f):
+                g2, f2 = np.sort(np.append(g[1:], g[-1])), np.sort(np.append(f[1:], f[0]))
+                F.genuines, F.frauds = g2, f2
+                S.pos, S.neg = g2.copy(), f2.copy()
+                q2 = queries(F, S, t2s, ths, full=False)
+                same = all(q2[k + "_f"] == q2[k + "_s"] for k in ("exc", "cm", "rates", "thr")) and q2["bitwise_identical"]
+                e["queries"]["bitwise_identical"] = bool(e["queries"]["bitwise_identical"] and same
+                                                         and np.array_equal(F.genuines, F.pos) and np.array_equal(F.frauds, F.neg))
+        except Exception:  # noqa
+            e["queries"]["bitwise_identical"] = False
     return e
 
 
